@@ -28,12 +28,13 @@ def run(chk):
     chk.rule("R-NJ-REC", "the recurrence is x[i+1] = A x[i] + B (load[i], load[i+1]) for every step i = 0..n-2, with (A, B) = "
                          "compute_a_and_b(xi, w, dt) and load = minus the record")
     nj_rules(chk)
-    chk.floor("R-NJ-COEF", 8)
-    chk.floor("R-NJ-REC", 5)
     fi = P.fn(NJR)
     c = "%s:%s" % (fi.module.relpath, fi.name)
     chk.files.add(fi.module.relpath)
     # ------------------------------------------------------------------ names by role
+    if len(fi.params) >= 4 and _t0_early_return(chk, fi, c, fi.params[0], fi.params[2]):
+        chk.floor("R-NJ-COEF", 8)
+        return
     names = nj_names(fi)
     if names is None:
         chk.ob("R-ACC", c, "every return is `return u, v, a` of three named arrays with the same u, v", False, derived="not of that shape",
@@ -46,17 +47,15 @@ def run(chk):
     rec, dtp, per, xi = fi.params[:4]
     norm = straightline_env(fi.node.body, Normaliser())
     # ------------------------------------------------------------------ R-T0: the branch that selects s
-    sel = None
-    for n in ast.walk(fi.node):
-        if isinstance(n, ast.If) and isinstance(n.test, ast.Compare) and len(n.test.ops) == 1:
-            l, r0 = n.test.left, n.test.comparators[0]
-            if isinstance(l, ast.Subscript) and isinstance(l.value, ast.Name) and l.value.id == per and \
-                    isinstance(l.slice, ast.Constant) and l.slice.value == 0 and isinstance(r0, ast.Constant) and r0.value == 0:
-                sel = n
+    sel, first_is_zero_test = _t0_selector(fi, per)
+    if sel is not None and not isinstance(sel.test, ast.Compare):
+        sel_test = first_is_zero_test(sel.test)
+    else:
+        sel_test = sel.test if sel is not None else None
     if sel is None:
         chk.ob("R-T0", c + "{selector}", "a test `periods[0] == 0` selects the offset", False, derived="not found", loc=fi.loc())
         return
-    op = type(sel.test.ops[0]).__name__
+    op = type(sel_test.ops[0]).__name__
 
     def const_assign(stmts):
         d = {}
@@ -88,8 +87,14 @@ def run(chk):
                             row = comps[0]
                             ok = isinstance(row, ast.Slice) and isinstance(row.lower, ast.Name) and row.lower.id == s and \
                                 row.upper is None and row.step is None
+                            # the rule knows the design "one row per period, stores on rows s:"; state arrays with another row count
+                            # (only the oscillators, the rigid row stacked on afterwards) are a different design: not located
+                            alloc = [a for a in ast.walk(fi.node) if isinstance(a, ast.Assign) and isinstance(a.targets[0], ast.Name) and
+                                     a.targets[0].id == t.value.id and isinstance(a.value, ast.Call) and "zeros" in ast.unparse(a.value.func)]
+                            per_rows = bool(alloc) and ("len(%s)" % per) in ast.unparse(alloc[0].value)
                             chk.ob("R-T0", c + "{recurrence-store}", "store rows are `%s:` (rows below the offset stay zero)" % s, ok,
-                                   derived="row index `%s`" % ast.unparse(row), loc=fi.loc(st), stmt=norm_stmt(st))
+                                   derived="row index `%s`%s" % (ast.unparse(row), "" if per_rows else " on an array that does not have one row per period"),
+                                   loc=fi.loc(st), stmt=norm_stmt(st), inconclusive=(not ok and not per_rows))
     if n_st == 0:
         chk.ob("R-T0", c + "{recurrence-store}", "recurrence stores found", False, derived="none", inconclusive=True, loc=fi.loc())
     # ------------------------------------------------------------------ R-T0: row 0 of the third series = -record
@@ -99,7 +104,8 @@ def run(chk):
                 and n.targets[0].value.id in THIRD and isinstance(n.targets[0].slice, ast.Constant) and n.targets[0].slice.value == 0:
             row0.append(n)
     if len(row0) != 1:
-        chk.ob("R-T0", c + "{T=0 row}", "one assignment to row 0 of the third series", False, derived="%d found" % len(row0), loc=fi.loc())
+        chk.ob("R-T0", c + "{T=0 row}", "one assignment to row 0 of the third series", False, derived="%d found" % len(row0), loc=fi.loc(),
+               inconclusive=not row0)
     else:
         p = norm.poly(row0[0].value)
         want = -Poly.atom(rec)
@@ -201,6 +207,8 @@ def run(chk):
         chk.ob("R-FWD", cc, "one call reaching the response routine", False, derived="%d" % len(calls), loc=r.fi.loc())
     from .c03 import xi_sentinel
     xi_sentinel(chk, P.fn(ACC + ".response_series"), cc, "R-FWD")
+    chk.floor("R-NJ-COEF", 8)
+    chk.floor("R-NJ-REC", 5)
     chk.floor("R-T0", 5)
     chk.floor("R-ACC", 7)
     chk.floor("R-FWD", 12)
@@ -346,6 +354,24 @@ def nj_rules(chk):
             src = src.args[0]
         if isinstance(src, ast.List) and len(src.elts) == 2 and all(isinstance(r, ast.List) and len(r.elts) == 2 for r in src.elts):
             mats[which] = [[x for x in r.elts] for r in src.elts]
+        elif isinstance(e, ast.Name):
+            # the matrix may also be allocated (np.empty / np.zeros) and filled entry by entry: m[i, j] = expr or m[i][j] = expr
+            cells = {}
+            for n in ast.walk(fi.node):
+                if isinstance(n, ast.Assign) and len(n.targets) == 1 and isinstance(n.targets[0], ast.Subscript):
+                    t = n.targets[0]
+                    ij = None
+                    if isinstance(t.value, ast.Name) and t.value.id == e.id and isinstance(t.slice, ast.Tuple) and len(t.slice.elts) == 2 and \
+                            all(isinstance(x, ast.Constant) and x.value in (0, 1) for x in t.slice.elts):
+                        ij = (t.slice.elts[0].value, t.slice.elts[1].value)
+                    elif isinstance(t.value, ast.Subscript) and isinstance(t.value.value, ast.Name) and t.value.value.id == e.id and \
+                            isinstance(t.value.slice, ast.Constant) and isinstance(t.slice, ast.Constant) and \
+                            t.value.slice.value in (0, 1) and t.slice.value in (0, 1):
+                        ij = (t.value.slice.value, t.slice.value)
+                    if ij is not None:
+                        cells.setdefault(ij, []).append(n.value)
+            if set(cells) == {(0, 0), (0, 1), (1, 0), (1, 1)} and all(len(v) == 1 for v in cells.values()):
+                mats[which] = [[cells[(0, 0)][0], cells[(0, 1)][0]], [cells[(1, 0)][0], cells[(1, 1)][0]]]
     if set(mats) != {"a", "b"}:
         chk.ob("R-NJ-COEF", c, "both results are 2x2 matrices written out entry by entry", False, derived="recognised: %s" % sorted(mats),
                inconclusive=True, loc=fi.loc())
@@ -431,3 +457,57 @@ def nj_rules(chk):
         chk.ob("R-NJ-REC", c2 + "{recurrence %s}" % ("u" if which == 0 else "v"),
                "x[i+1] = A[k] . (u[i], v[i]) + B[k] . (load[i], load[i+1]), k = %d, stored at column i + 1" % which, got == want and okcol,
                derived="%s -> column %s" % (got.canon(), col), loc=fr_.loc(stn), stmt=norm_stmt(stn))
+
+
+def _t0_selector(fi, per):
+    sel = None
+
+    def first_is_zero_test(t):
+        if isinstance(t, ast.BoolOp) and isinstance(t.op, ast.And):        # `len(periods) and periods[0] == 0`
+            hits = [x for x in t.values if first_is_zero_test(x)]
+            return hits[0] if hits else None
+        if isinstance(t, ast.Compare) and len(t.ops) == 1:
+            l, r0 = t.left, t.comparators[0]
+            if isinstance(l, ast.Subscript) and isinstance(l.value, ast.Name) and l.value.id == per and \
+                    isinstance(l.slice, ast.Constant) and l.slice.value == 0 and isinstance(r0, ast.Constant) and r0.value == 0:
+                return t
+        return None
+    for n in ast.walk(fi.node):
+        if isinstance(n, ast.If) and first_is_zero_test(n.test) is not None:
+            sel = n
+    return sel, first_is_zero_test
+
+
+def _t0_early_return(chk, fi, c, rec, per):
+    """True when the T = 0 case is an early return (decided here)"""
+    sel, first_is_zero_test = _t0_selector(fi, per)
+    # another design of the T = 0 case: the branch `periods[0] == 0` returns early, stacking a rigid row on top of the response of the
+    # remaining periods.  Then the first stacked piece of the third series must be minus the record AS IT IS AT THAT POINT of the
+    # function (assignments before the return are followed, later ones are not)
+    if sel is not None and isinstance(first_is_zero_test(sel.test).ops[0], ast.Eq):
+        early = [x for x in sel.body if isinstance(x, ast.Return) and isinstance(x.value, ast.Tuple) and len(x.value.elts) == 3]
+        if early:
+            third = early[0].value.elts[2]
+            env_ = straightline_env(fi.node.body, Normaliser(), stop_at=early[0], exclude=set())
+            if isinstance(third, ast.Name) and third.id in env_.env:
+                pass
+            stk = third
+            if isinstance(stk, ast.Name):
+                defs = [a for a in ast.walk(sel) if isinstance(a, ast.Assign) and isinstance(a.targets[0], ast.Name) and a.targets[0].id == stk.id]
+                stk = defs[-1].value if defs else stk
+            if isinstance(stk, ast.Call) and ast.unparse(stk.func).split(".")[-1] in ("vstack", "concatenate", "row_stack") and stk.args and \
+                    isinstance(stk.args[0], (ast.List, ast.Tuple)) and stk.args[0].elts:
+                top = stk.args[0].elts[0]
+                while isinstance(top, (ast.List, ast.Tuple)) and len(top.elts) == 1:
+                    top = top.elts[0]
+                p = env_.poly(top)
+                chk.ob("R-T0", c + "{T=0 row}", "row 0 of the third series is minus the record", p == -Poly.atom(rec),
+                       derived="stacked on top: %s (record parameter `%s`, as bound where the branch returns)" % (p.canon(), rec),
+                       loc=fi.loc(early[0]), stmt=norm_stmt(early[0]))
+            else:
+                chk.ob("R-T0", c + "{T=0 row}", "row 0 of the third series is minus the record", False,
+                       derived="the T = 0 branch returns early in a form the rule does not know", inconclusive=True, loc=fi.loc(early[0]))
+            chk.ob("R-T0", c + "{design}", "the T = 0 case returns early: the offset-based obligations do not apply", False,
+                   derived="early return on the `periods[0] == 0` branch", inconclusive=True, loc=fi.loc(sel))
+            return True
+    return False
